@@ -294,6 +294,37 @@ def run_ctx(ctx):
                 ctx.fail(ctx.cur_key + "|" + e.kind, e.detail)
             finally:
                 ctx.end()
+    # (a'') selections that are interleaved with changes which bypass ep_param_set: another prime installed through
+    # fp_param_set, then the SAME curve selected again - the second selection must rebuild everything
+    fp_ids = []
+    for n_, v_ in R.EH.get("relic_fp.h", {}).items():
+        rr = R.call("fp_param_set", v_)
+        # fp_param_set silently ignores identifiers of other field sizes: keep those of the built size
+        if not rr.caught and R.L.fp_param_get() == v_ and (n_.endswith("_%d" % K["FP_PRIME"]) or
+                                                           (K["FP_PRIME"] == 255 and n_ in ("PRIME_25519", "PRIME_H2ADC"))):
+            fp_ids.append((n_, v_))
+    ctx.note("prime_field_identifiers", [n_ for n_, _ in fp_ids])
+    for ci, (name, pid) in enumerate(ids):
+        for oi, (fn_, fv_) in enumerate(fp_ids):
+            if not ctx.mine(ci * 31 + oi):
+                continue
+            if not ctx.begin("reselect|%s|after-fp_param_set" % name, [name, fn_], budget=300):
+                continue
+            try:
+                select(name, pid)
+                R.call("fp_param_set", fv_)
+                R.fp_setup()
+                select(name, pid)
+                obs = observe(name)
+                for what in ("map", "gen", "pair"):
+                    if what in fresh[name] and what in obs:
+                        ctx.check(obs[what] == fresh[name][what], "reselect|%s|%s-differs-from-fresh" % (name, what),
+                                  {"bypass": fn_})
+            except MonitorViolation as e:
+                ctx.fail(ctx.cur_key + "|" + e.kind, e.detail)
+            finally:
+                ctx.end()
+
     # (a') binary curves: the same requirement for eb_param_set / fb state (no model needed: the reference is a
     # freshly initialised context holding only the last selection)
     eb_ids = [(n_, v_) for n_, v_ in R.EH.get("relic_eb.h", {}).items()]
